@@ -305,6 +305,12 @@ func aloneBatch(cases []Case) []string {
 	return res
 }
 
+var c05Refs = []struct{ path, name string }{
+	{"example.com/x/codec", "Options"}, {"example.com/y/codec", "Options"}, {"example.org/a/v2", "T"}, {"example.org/b/v2", "T"},
+	{"k8s.io/api/core/v1", "Pod"}, {"k8s.io/api/apps/v1", "Deployment"}, {"text/template", "Template"}, {"html/template", "Template"},
+	{"math/rand", "Rand"}, {"crypto/rand", "Reader"},
+}
+
 // ---------------------------------------------------------------- C04: determinism
 
 type detCase struct {
@@ -952,16 +958,54 @@ func init() {
 			BatchRun: aloneBatch, ShrinkBudget: 40, MaxShrinks: 4,
 			Rule: pipeRuleCommon + "each scenario is run once as given and once per package with that package as the only entrypoint; oracle: the package's generated files are byte-identical in both; the model's bodies (fresh state per package) are compared as well",
 		},
+		{
+			Name: "alone-imports", Quick: 50, Thorough: 500, New: func() Case { return &aloneCase{} },
+			Gen: func(r *Rng, i int) Case {
+				s := genScenario(r, pipeProfile{extras: false, prev: false, maxPkgs: 4, allChance: 70})
+				s.Globals = append(s.Globals, PTag{"gengo:rec", []string{""}})
+				s.Custom = map[string][]PItem{}
+				id := 0
+				var keys []string
+				for k := range s.Reacts {
+					keys = append(keys, k)
+				}
+				sort.Strings(keys)
+				for _, k := range keys {
+					v := s.Reacts[k]
+					if v[0] != 'o' && v[0] != 's' {
+						continue
+					}
+					// references into packages whose last path segments clash: which local name a path gets depends on
+					// what else the same file imports — and must depend on nothing else
+					var items []PItem
+					for n := 1 + r.Intn(3); n > 0; n-- {
+						id++
+						ref := Pick(r, c05Refs)
+						items = append(items, PItem{K: "ref", S: fmt.Sprintf("var I%d *@ref\n", id), Path: ref.path, Name: ref.name})
+					}
+					s.Reacts[k] = string(v[0]) + "b" + v[2:]
+					s.Custom[k] = items
+				}
+				return &aloneCase{pipeCase: pipeCase{S: s, Clauses: "calls"}}
+			},
+			BatchRun: aloneBatch, ShrinkBudget: 40, MaxShrinks: 4,
+			Rule: pipeRuleCommon + "as alone-together, with every generator rendering 1–3 references into a menu of 10 packages whose last path segments clash pairwise (x/codec·y/codec, a/v2·b/v2, core/v1·apps/v1, text/template·html/template, math/rand·crypto/rand): the local import names chosen for a package's file must be the same alone and together",
+		},
 	}})
 	register(&Property{ID: "C04", Streams: []*Stream{
 		{
 			Name: "determinism", Quick: 80, Thorough: 800, New: func() Case { return &detCase{} },
 			Gen: func(r *Rng, i int) Case {
 				s := genScenario(r, pipeProfile{extras: true, prev: false, locals: true, maxPkgs: 4, allChance: 70})
+				for k, v := range s.Reacts { // some generators dump maps with non-string keys
+					if v[1] == 'n' && r.Chance(35) {
+						s.Reacts[k] = string(v[0]) + "m" + v[2:]
+					}
+				}
 				return &detCase{pipeCase: pipeCase{S: s, Clauses: "calls"}}
 			},
 			BatchRun: detBatch, ShrinkBudget: 40, MaxShrinks: 4,
-			Rule: pipeRuleCommon + "every scenario is materialised three times and run in separate processes with the entrypoints in given, reversed and rotated order, three consecutive runs each; oracle: generated files, gengo.sum and call order byte-identical across the three, later runs change no generated file, the third run regenerates nothing; keys of every map whose order matters are inserted in descending order so that a missing sort shows in every run",
+			Rule: pipeRuleCommon + "every scenario is materialised three times and run in separate processes with the entrypoints in given, reversed and rotated order, three consecutive runs each; oracle: generated files, gengo.sum and call order byte-identical across the three, later runs change no generated file, the third run regenerates nothing; keys of every map whose order matters are inserted in descending order so that a missing sort shows in every run; a third of the rendering generators also dump value literals of maps with int, array, bool, uint8 and float keys (snippet.Value), whose text must not depend on map iteration order",
 		},
 	}})
 	register(&Property{ID: "C08", Streams: []*Stream{
